@@ -79,6 +79,9 @@ type BaseNodeService struct {
 	opService                operation.OperationService
 	sigService               signature.SignatureService
 	SkipCommKeysVerification bool
+	// processMu serializes handling of a board message with handling of a processed operation:
+	// both read-modify-write the same stored maps (operations, FSM instances)
+	processMu sync.Mutex
 }
 
 func NewNode(ctx context.Context, config *config.Config, sp *services.ServiceProvider) (NodeService, error) {
@@ -106,6 +109,9 @@ func (s *BaseNodeService) GetLogger() logger.Logger {
 }
 
 func (s *BaseNodeService) ProcessMessage(message storage.Message) error {
+	s.processMu.Lock()
+	defer s.processMu.Unlock()
+
 	if fsm.State(message.Event) == types.ReinitDKG {
 		if err := s.reinitDKG(message); err != nil {
 			return fmt.Errorf("failed to reinitDKG")
@@ -250,6 +256,9 @@ func (s *BaseNodeService) ProcessOperation(dto *dto.OperationDTO) error {
 }
 
 func (s *BaseNodeService) executeOperation(operation *types.Operation) error {
+	s.processMu.Lock()
+	defer s.processMu.Unlock()
+
 	if operation.Event.IsEmpty() {
 		return errors.New("operation is request operation, provide result operation instead")
 	}
